@@ -35,7 +35,10 @@ pub fn zoo_roundtrip<M: ZooMsg + ?Sized>(n: u32) -> Result<(), String> {
                     if matches!(&again, Ok(Ok(b2)) if b2 == &v) {
                         return Err(format!("STALE:emplace|emplacing {} over a buffer pre-filled with 0xFF reads back {}, over zeros it reads back correctly: the value depends on the previous contents of the (reused) buffer", v.short(), back.short()));
                     }
-                    return Err(format!("round trip changed the value: {:?} -> {:?}", v, back));
+                    // the adapters round-trip on the pinned tree, so a value that changes on the way
+                    // through emplace + read is a change in the library (what the sender holds is
+                    // not what the application built)
+                    return Err(format!("MISMATCH:emplace|emplacing {} reads back {}", v.short(), back.short()));
                 }
                 if size > buf.len() {
                     return Err(format!("size() {} exceeds the buffer", size));
@@ -44,7 +47,7 @@ pub fn zoo_roundtrip<M: ZooMsg + ?Sized>(n: u32) -> Result<(), String> {
                     distinct.push(back);
                 }
             }
-            Ok(Err(e)) => return Err(format!("emplace of {:?} failed in a 8 KiB buffer: {:?}", v, e)),
+            Ok(Err(e)) => return Err(format!("MISMATCH:emplace|emplacing the valid value {} into an 8 KiB buffer is refused: {:?}", v.short(), e)),
             Err(c) => return Err(format!("PANIC:{}|the library panicked while a valid value was emplaced / measured / read: {} ({})", c.site(), v.short(), c.describe())),
         }
     }
